@@ -129,6 +129,9 @@ def _worker(wid, spaces, counter, nblocks_total, order, deadline, beacon_path, c
         conn.send(pickle.dumps({"error": traceback.format_exc()}))
     finally:
         conn.close()
+        if os.environ.get("VERIF_COV"):
+            import ctypes
+            ctypes.CDLL(None).exit(0)          # run C-level destructors so that gcov counters are written
 
 
 def run_spaces(spaces, deadline_s, slow=False, stall_s=600):
